@@ -49,3 +49,91 @@ Definition touches (n : bytes) (s : usys) (e : uev) : bool :=
   | UAccept _ m _ => bytes_eqb m n
   | UWrite w _ | UDone w | UFail w => match w_lookup w (u_live s) with Some (m, _) => bytes_eqb m n | None => false end
   end.
+
+(** * The server as a system: listener + one worker per accepted request (C12) *)
+From Tftp Require Import Model.Types Model.Consts Model.Codec Model.Window Model.Worker Model.Server.
+
+Inductive wstate := WSend (c : scfg) (s : sstate) | WRecv (c : rcfg) (r : rstate).
+
+(** A worker, keyed by the source address of its peer, with the datagrams waiting in its inbox
+    (single-port: the channel fed by the listener; multi-port: its connected socket, on which
+    the kernel delivers only datagrams of that peer). *)
+Record sys := mk_sys { y_ls : lstate; y_ws : list (N * (wstate * list bytes)) }.
+
+Inductive label :=
+| LArrive (src : N) (raw : bytes)      (* a datagram from [src] reaches the listening port *)
+| LArriveW (src : N) (raw : bytes)     (* multi-port: a datagram from [src] reaches the port of its own transfer *)
+| LWork (src : N)                      (* the worker of [src] takes the next datagram from its inbox *)
+| LTimeout (src : N).                  (* the worker of [src] times out on an empty inbox *)
+
+Fixpoint y_get (src : N) (l : list (N * (wstate * list bytes))) : option (wstate * list bytes) :=
+  match l with [] => None | (k, x) :: r => if k =? src then Some x else y_get src r end.
+Fixpoint y_put (src : N) (x : wstate * list bytes) (l : list (N * (wstate * list bytes))) : list (N * (wstate * list bytes)) :=
+  match l with [] => [(src, x)] | (k, y) :: r => if k =? src then (k, x) :: r else (k, y) :: y_put src x r end.
+
+Definition tmo_ns (o : wopts) : N := wo_tmo_s o * 1000000000.
+
+(** What one action of the listener does to the worker table; the datagrams it makes the server emit. *)
+Definition apply_action (root : node) (src : N) (raw : bytes) (ws : list (N * (wstate * list bytes))) (a : action)
+  : list (N * (wstate * list bytes)) * list (N * bytes) :=
+  match a with
+  | AReply _ p => (ws, [(src, encode p)])
+  | ASpawnSend path o rep check =>
+    match stat root path with
+    | Some (NFile content) =>
+      let cfg := mk_scfg (wo_blk o) (wo_ws o) (tmo_ns o) rep check [] in
+      let '(s0, out0) := send_init cfg content in
+      (y_put src (WSend cfg s0, []) ws, map (fun s => (src, encode (s_pk s))) out0)
+    | _ => (ws, [])
+    end
+  | ASpawnRecv path o rep clean =>
+    (y_put src (WRecv (mk_rcfg (wo_blk o) (wo_ws o) (tmo_ns o) rep clean []) (recv_init (mk_rcfg (wo_blk o) (wo_ws o) (tmo_ns o) rep clean [])), []) ws, [])
+  | ARoute _ =>
+    match y_get src ws with
+    | Some (w, inbox) => (y_put src (w, inbox ++ [raw]) ws, [])
+    | None => (ws, [])
+    end
+  end.
+
+Fixpoint apply_actions (root : node) (src : N) (raw : bytes) (ws : list (N * (wstate * list bytes))) (acts : list action)
+  : list (N * (wstate * list bytes)) * list (N * bytes) :=
+  match acts with
+  | [] => (ws, [])
+  | a :: r => let '(ws1, o1) := apply_action root src raw ws a in
+              let '(ws2, o2) := apply_actions root src raw ws1 r in (ws2, o1 ++ o2)
+  end.
+
+Definition work (w : wstate) (e : ev) (src : N) : wstate * list (N * bytes) :=
+  match w with
+  | WSend c s => let '(s', out) := send_step c s e in (WSend c s', map (fun x => (src, encode (s_pk x))) out)
+  | WRecv c r => let '(r', out) := recv_step c r e in (WRecv c r', map (fun x => (src, encode (s_pk (a_sent x)))) out)
+  end.
+
+Definition wtimeout (w : wstate) : N := match w with WSend c _ => s_tmo c | WRecv c _ => r_tmo c end.
+
+Definition sys_step (cfg : srvcfg) (mem : N) (root : node) (y : sys) (l : label) : sys * list (N * bytes) :=
+  match l with
+  | LArrive src raw =>
+    match listen_step cfg mem root (y_ls y) src raw with
+    | Ok (ls', acts) => let '(ws', out) := apply_actions root src raw (y_ws y) acts in (mk_sys ls' ws', out)
+    | _ => (y, [])
+    end
+  | LArriveW src raw =>
+    match y_get src (y_ws y) with
+    | Some (w, inbox) => (mk_sys (y_ls y) (y_put src (w, inbox ++ [raw]) (y_ws y)), [])
+    | None => (y, [])
+    end
+  | LWork src =>
+    match y_get src (y_ws y) with
+    | Some (w, raw :: inbox) => let '(w', out) := work w (EvDgram 0 raw) src in (mk_sys (y_ls y) (y_put src (w', inbox) (y_ws y)), out)
+    | _ => (y, [])
+    end
+  | LTimeout src =>
+    match y_get src (y_ws y) with
+    | Some (w, []) => let '(w', out) := work w (EvFail (wtimeout w)) src in (mk_sys (y_ls y) (y_put src (w', []) (y_ws y)), out)
+    | _ => (y, [])
+    end
+  end.
+
+Definition label_src (l : label) : N :=
+  match l with LArrive s _ | LArriveW s _ | LWork s | LTimeout s => s end.
